@@ -228,6 +228,25 @@ def _logged(owned):
     return ef.Logged(lrn, 1.5)
 
 
+class CountingLearner:
+    """A caller-owned learner whose whole state is plain data (so that any use of the caller's object shows in the snapshot):
+    it plays the actions round-robin and remembers every call."""
+    def __init__(self): self.calls = []
+    @property
+    def params(self): return {'family': 'counting'}
+    def predict(self, context, actions):
+        self.calls.append('predict')
+        return actions[len(self.calls) % len(actions)], 1 / len(actions)
+    def learn(self, context, action, reward, probability, **kw):
+        self.calls.append('learn')
+
+
+def _logged_counting(owned):
+    lrn = CountingLearner()
+    owned['Logged.learner'] = lrn
+    return ef.Logged(lrn, 2)
+
+
 def _noise_fn(x, rng):
     return x + rng.randint(0, 3)
 
@@ -275,6 +294,7 @@ FILTERS = {
     'Batch':        ('Batch',     lambda o: ef.Batch(2), _unb, lambda t: t | {'batched'}),
     'Unbatch':      ('Unbatch',   lambda o: ef.Unbatch(), _any, lambda t: t - {'batched'}),
     'Logged':       ('Logged',    _logged, lambda t: 'sim' in t, lambda t: (t | {'logged'}) - {'batched'}),
+    'LoggedC':      ('Logged',    _logged_counting, lambda t: 'sim' in t, lambda t: (t | {'logged'}) - {'batched'}),
     'Cache':        ('Cache',     lambda o: ef.Cache(2), _any, _same),
     'Cache25':      ('Cache',     lambda o: ef.Cache(25), _any, _same),
     'Chunk':        ('Chunk',     lambda o: ef.Chunk(), _any, _same),
@@ -361,9 +381,9 @@ def cparams(p):
 def flavour(item):
     """Coarse kind of an interaction (goes into finding keys)."""
     if not isinstance(item, dict): return 'other'
+    if 'action' in item and 'reward' in item: return 'logged'
     if any(is_batch(v) for v in item.values()): return 'batched'
     if 'feedbacks' in item: return 'grounded'
-    if 'action' in item and 'reward' in item: return 'logged'
     return 'simulated'
 
 
